@@ -23,7 +23,8 @@ EXPLANATION = ("D1 calendar: day_of_year(d, m) = cumulative MONTH_DAYS + d, peri
                "lengths 1 -> 24 copies / 24 kept, other lengths are errors; D2 each period skips running_count % 7 days of its cycled week and takes `count` days, running_count "
                "accumulates the counts; D3 occupancy: spaces with kind != UNINHABITED, inside, loads present; `||` fold over the day's schedules; same non-zero threshold in both "
                "copies; D4 mean load = sum(loads_avg area mult)/sum(area mult), loads_avg = people x sensible + lighting x lighting + equipment x equipment")
-DECIDED = ["D1 calendar constants and length dispatch", "D2 weekday alignment arithmetic", "D3 occupancy predicates and threshold", "D4 mean-load formulas"]
+DECIDED = ["D1 calendar constants and length dispatch", "D2 weekday alignment arithmetic", "D3 occupancy predicates and threshold", "D4 mean-load formulas",
+           "D5 a weekly run is compared with the name it started from (re-bound at each new run)"]
 UNDECIDED = ["the expansion's output on concrete schedules (needs evaluation over runtime lists)"]
 ASSUMPTIONS = ["Iterator::cycle/skip/take semantics"]
 LEVEL_TEXT = ("Partial: the calendar arithmetic is decided by constant folding of the closed form for the twelve months, the dispatch on list lengths and the skip/take/cycle "
